@@ -10,14 +10,18 @@
 (*    exactly where Clip says; Fill writes exactly the clip rectangle; a    *)
 (*    two-cell glyph is written iff both halves are accepted, whether its   *)
 (*    width is stated in the cell or left to be measured (Measure = FALSE   *)
-(*    is the code as found: the overhang test trusted the stated width).    *)
+(*    is the code as found: the overhang test trusted the stated width);    *)
+(*    set style on a screen holding a two-cell glyph changes the display of *)
+(*    cells of the clip rectangle only, and restyles what the window        *)
+(*    accepts when the glyph there is wholly inside (StyleFix = FALSE is    *)
+(*    the code as found: no overhang test in SetStyle).                     *)
 (* The clipping is separable per axis, so the deep configurations explore   *)
 (* one axis with the full ranges (YOffs = {0}, YSizes = {1}, Rows = 1) and  *)
 (* the 2D configurations explore both axes with smaller ranges.             *)
 EXTENDS Clip, WindowImpl, TLC
-CONSTANTS Cols, Rows, Depth, Offs, Sizes, YOffs, YSizes, CoordsX, CoordsY, Repaired, Measure
+CONSTANTS Cols, Rows, Depth, Offs, Sizes, YOffs, YSizes, CoordsX, CoordsY, Repaired, Measure, StyleFix
 
-Fx == [wide |-> Repaired, measure |-> Measure]
+Fx == [wide |-> Repaired, measure |-> Measure, style |-> StyleFix]
 
 (* Named value sets for the configuration files (a .cfg cannot write a     *)
 (* negative number).                                                        *)
@@ -86,6 +90,20 @@ AutoCellConforms ==
   \A c \in CoordsX : \A r \in CoordsY :
      LET got == ISetCell(wins, Top, c, r, Eff(0, 2, Fx), Cols, Rows, Fx) IN
      IF AcceptsWide(w, c, r, 2) THEN got = Landing(w, c, r) ELSE got = None
+(* set style, the screen holding a two-cell glyph in the cells g and g + (1, 0): the cells  *)
+(* whose display changes (both of the glyph when its first is restyled, none when the     *)
+(* cell under its second is) are the window's; an accepted cell is restyled where Clip    *)
+(* says unless the glyph it shows is not wholly the window's; a refused one never         *)
+StyleConforms ==
+  \A gx \in 0..(Cols - 2) : \A gy \in 0..(Rows - 1) : \A c \in CoordsX : \A r \in CoordsY :
+     LET g == <<gx, gy>>
+         g2 == <<gx + 1, gy>>
+         got == ISetStyle(wins, Top, c, r, g, Cols, Rows, Fx)
+         shown == IF got = None \/ got = g2 THEN {} ELSE IF got = g THEN {g, g2} ELSE {got}
+         whole == Landing(w, c, r) \notin {g, g2} \/ {g, g2} \subseteq CellsOf(w.clip)
+     IN /\ shown \subseteq CellsOf(w.clip)
+        /\ ~Accepts(w, c, r) => got = None
+        /\ Accepts(w, c, r) /\ whole => got = Landing(w, c, r)
 FillConforms == IFill(wins, Top, Cols, Rows, Fx) = CellsOf(w.clip)
 ExtentConforms == wins[Top].w = w.w /\ wins[Top].h = w.h
 =============================================================================
